@@ -384,7 +384,8 @@ func (x *Ctx) Exec(c *rosmar.Collection, bucket *rosmar.Bucket, op *GenOp) (a Ar
 		// outdated CAS, which must send the call back to reading); "retry": the callback asks once to be called again
 		var previous *sgbucket.BucketDocument
 		if op.Cb == "apply-cur" || op.Cb == "apply-stale" {
-			if b0, xs0, cas0, gerr := c.GetWithXattrs(ctx, op.Key, XNames); gerr == nil {
+			// (only for a live document: what a caller would pass for a tombstone is not specified here)
+			if b0, xs0, cas0, gerr := c.GetWithXattrs(ctx, op.Key, XNames); gerr == nil && len(b0) > 0 {
 				previous = &sgbucket.BucketDocument{Body: b0, Xattrs: xs0, Cas: cas0}
 				if op.Cb == "apply-stale" {
 					previous.Cas = cas0 - 1
